@@ -324,4 +324,82 @@ theorem prompt_run (c : Settings) (ops : List Op) (g g' : G) (hinv : PromptInv c
       rw [hg] at h
       exact ih g1 (prompt_step c g g1 op hinv htime.1 hev.1 hcut.1 hg) (htime.2 g1 hg) (hev.2 g1 hg) (hcut.2 g1 hg) h
 
+-- ---------------------------------------------------------------------------------------------
+-- executable twins of the per-step hypotheses (used to discharge them on concrete histories)
+
+/-- executable twin of `TimeOk` -/
+def timeOkB (g : G) (op : Op) : Bool :=
+  match opTime op with
+  | some t => decide (g.clock ≤ t)
+  | none => true
+
+def noEvictionB (g : G) (op : Op) : Bool :=
+  match op with
+  | .processed p => (AckRanges.insertPn g.s.ackRanges p.pn).2 == .ok
+  | _ => true
+
+def noCutoffB (g : G) (op : Op) : Bool :=
+  match op with
+  | .packetAck a =>
+    match (g.s.ackElicitingTransmissions.onUpdate a).2 with
+    | some r => g.pend.all (fun e => decide (r.hi < e.1))
+    | none => true
+  | _ => true
+
+def allStepsB (pB : G → Op → Bool) : G → List Op → Bool
+  | _, [] => true
+  | g, op :: rest =>
+    pB g op && (match gstep g op with
+      | some g' => allStepsB pB g' rest
+      | none => true)
+
+theorem allSteps_of_B (P : G → Op → Prop) (pB : G → Op → Bool) (hp : ∀ g op, pB g op = true → P g op)
+    (ops : List Op) (g : G) (h : allStepsB pB g ops = true) : AllSteps P g ops := by
+  induction ops generalizing g with
+  | nil => trivial
+  | cons op rest ih =>
+    simp only [allStepsB, Bool.and_eq_true] at h
+    refine ⟨hp g op h.1, fun g' hg => ih g' ?_⟩
+    have := h.2
+    rw [hg] at this
+    exact this
+
+theorem timeOk_of_B (g : G) (op : Op) (h : timeOkB g op = true) : TimeOk g op := by
+  intro t ht
+  unfold timeOkB at h
+  rw [ht] at h
+  simpa using h
+
+theorem noEviction_of_B (g : G) (op : Op) (h : noEvictionB g op = true) : NoEviction g op := by
+  intro p hp
+  subst hp
+  simpa [noEvictionB] using h
+
+theorem noCutoff_of_B (g : G) (op : Op) (h : noCutoffB g op = true) : NoCutoff g op := by
+  intro a r ha hr e he
+  subst ha
+  simp only [noCutoffB, hr, List.all_eq_true, decide_eq_true_eq] at h
+  exact h e he
+
+theorem wf_of_wfB : ∀ (l : List Interval), wfB l = true → WF l := by
+  intro l
+  induction l with
+  | nil => intro _; exact WF.nil
+  | cons a rest ih =>
+    intro h
+    cases rest with
+    | nil =>
+      simp only [wfB, decide_eq_true_eq] at h
+      exact ⟨by simpa using h, by simp⟩
+    | cons b rest' =>
+      simp only [wfB, Bool.and_eq_true, decide_eq_true_eq] at h
+      have hw := ih h.2
+      refine WF.cons h.1.1 hw ?_
+      intro c hc
+      rcases List.mem_cons.1 hc with rfl | hc
+      · exact h.1.2
+      · have := hw.head_lt c hc
+        have := hw.head_valid
+        omega
+
 end Quic.Proofs.AckMgr
